@@ -253,6 +253,21 @@ VH_AREA(fsim) {
                 }
                 out_q("fsim shots " + wire_circuit(comp) + " - " + ref_txt + " " + std::to_string(n2) + txt, "ok *");
             }
+            // the detection-event entry point (compile_detector_sampler's): no measurement record comes back, so the record-free oracle judges it
+            if (stats.num_detectors + stats.num_observables > 0 && stats.num_sweep_bits == 0) {
+                size_t n6 = rng.pick(std::vector<size_t>{2, 64, 70});
+                std::mt19937_64 r6(rng.next());
+                auto pr = sample_batch_detection_events<MAX_BITWORD_WIDTH>(big, n6, r6);
+                std::string txt;
+                for (size_t sh = 0; sh < n6; sh++) {
+                    std::string d, o2;
+                    for (size_t q = 0; q < stats.num_detectors; q++) d.push_back(pr.first[q][sh] ? '1' : '0');
+                    for (size_t q = 0; q < stats.num_observables; q++) o2.push_back(pr.second[q][sh] ? '1' : '0');
+                    txt += " " + (d.empty() ? std::string("-") : d) + " " + (o2.empty() ? std::string("-") : o2);
+                }
+                out_q("fsim dets " + wire_circuit(comp) + " " + std::to_string(n6) + txt, "ok *");
+                st.hit("detection_event_sampler.shots", n6);
+            }
             // the single-shot (tableau) simulator on the same noisy circuit: its records must be possible too (every noisy
             // instruction is implemented a second time there); 3 word widths by case index
             {
